@@ -41,7 +41,7 @@ func init() {
 		ID:    "C10",
 		Level: "exploration",
 		Rule: "cases = (program) 5-40 operations (Read, Reader with partial reads, Write, multi-frame Writer, Ping) each with its own WithCancel/WithTimeout context in the defer-cancel idiom against a cooperating raw peer (fragmented, compressed, empty and empty-final-frame messages, control frames interleaved); every context is cancelled (or its deadline passes) after its call returned - decided on a logical clock, seq(return) < seq(cancel) - and the connection must keep working, ending with a full round trip; " +
-			"(blocked) a call blocked by the peer (data withheld, receive window closed, pong withheld) whose context is cancelled or expires, optionally after interleaved pings or concurrent calls that completed: it must return an error within 2 s and the connection must be closed. distinct key = (kind, role, agreement, op kind, message shape, cancel placement / blocked call, what happened before)",
+			"(blocked) a call blocked by the peer (data withheld, receive window closed, pong withheld) whose context is cancelled or expires, optionally after interleaved pings, concurrent calls that completed, or with other callers (contexts of their own) queued behind it before or after it blocked; also a read blocked inside a partly received Ping or writing a Pong to a peer that does not read: it must return an error within 2 s and the connection must be closed. distinct key = (kind, role, agreement, op kind, message shape, cancel placement / blocked call, what happened before)",
 		Gen:         c10Gen,
 		InChild:     func(string) int { return 6 },
 		CaseTimeout: 120 * time.Second,
